@@ -95,7 +95,8 @@ def _case(draw, ctx):
         names = [x[0] for x in spec["nodes"]]
         n = draw(st.sampled_from([deep, deep, "o"] + names))
         ep = draw(st.sampled_from(["none", "subset", "self", "one"]))
-        return {"spec": spec, "node": n, "endpoints": ep, "pick": draw(st.lists(st.integers(0, 50), min_size=4, max_size=4))}
+        return {"spec": spec, "node": n, "endpoints": ep, "pick": draw(st.lists(st.integers(0, 50), min_size=4, max_size=4)),
+                "prior_blocks": draw(st.integers(0, 5)) == 0}
     mi = draw(st.sampled_from([1, 2, 3, 4, 5, 6, 7]))
     spec = draw(S.circuit_spec(min_inputs=max(1, mi - 2), max_inputs=mi, min_gates=draw(st.sampled_from([1, 3, 5])),
                                max_gates=10, max_fanin=4, io_outputs=True, consts=draw(st.booleans()),
@@ -104,7 +105,8 @@ def _case(draw, ctx):
     gates = [x[0] for x in spec["nodes"] if x[1] in S.ALL_GATES]
     n = draw(st.sampled_from(names + gates + gates[-3:] * 3))
     ep = draw(st.sampled_from(["none", "subset", "self", "one"]))
-    return {"spec": spec, "node": n, "endpoints": ep, "pick": draw(st.lists(st.integers(0, 50), min_size=4, max_size=4))}
+    return {"spec": spec, "node": n, "endpoints": ep, "pick": draw(st.lists(st.integers(0, 50), min_size=4, max_size=4)),
+            "prior_blocks": draw(st.integers(0, 5)) == 0}
 
 
 def strategy(ctx):
@@ -138,6 +140,20 @@ def check(case, ctx):
     outs = sorted(x for x in g.nodes if g.nodes[x].get("output"))
     snap = refsim.snapshot(c)
     labels = []
+    if case.get("prior_blocks"):
+        # earlier in the same program the user built arithmetic blocks of the sizes the
+        # sensitivity circuit uses internally and edited them: later results must not depend on that
+        for w in range(1, len(sp) + 2):
+            for call in (lambda: cg.logic.adder(w), lambda: cg.logic.adder(w, carry_out=True), lambda: cg.logic.adder(w, False, True),
+                         lambda: cg.logic.popcount(w), cg.logic.half_adder, cg.logic.full_adder):
+                r_ = lib(call)
+                if r_.ok:
+                    blk = r_.value
+                    for x_ in list(blk.graph.nodes)[::2]:
+                        blk.graph.remove_node(x_)
+                    for x_ in blk.graph.nodes:
+                        blk.graph.nodes[x_]["type"] = "buf"
+        labels.append("after_edited_blocks")
 
     # ---- sensitization_transform / sensitize, all outputs
     asg, W = refsim.std_assignment(inputs)
